@@ -355,13 +355,14 @@ def c14_part(tier, seed):
     for i, r in enumerate(rows):
         t, e1 = case_term(r)
         lit, e2 = impl_term({"result": r["literal"], "action_kinds": r["action_kinds"]})
-        perr += e1 + e2
-        terms.append("(%s,\n %s)" % (t, lit))
+        wp, e3 = impl_term({"result": r["with_prefix"], "action_kinds": r["action_kinds"]})
+        perr += e1 + e2 + e3
+        terms.append("(%s,\n %s,\n %s)" % (t, lit, wp))
     for si in range(0, len(terms), per):
         with open(os.path.join(d, "lit_mysql_%03d.v" % (si // per)), "w") as f:
-            f.write("From VV.MYSQL Require Import PrefixCorr.\n\nDefinition cases : list (mysql_case * impl_result) := [\n")
+            f.write("From VV.MYSQL Require Import PrefixCorr.\n\nDefinition cases : list (mysql_case * impl_result * impl_result) := [\n")
             f.write(";\n".join(terms[si:si + per]))
-            f.write("\n].\nEval vm_compute in (literal_mismatches_from \"app_\" %d cases).\n" % si)
+            f.write("\n].\nEval vm_compute in (with_prefix_mismatches_from \"app_\" %d cases).\n" % si)
     res = vflib.run_shards(LAYER, d, "lit_mysql_*.v")
     mism, errors = {}, []
     for f, rc, o, dt in res:
@@ -374,12 +375,13 @@ def c14_part(tier, seed):
     first = None
     if mism:
         i = sorted(mism)[0]
-        first = {"baseline": rows[i]["baseline"], "plan": rows[i]["plan"], "mysql": rows[i]["result"], "mysql_literal_app_": rows[i]["literal"],
+        first = {"baseline": rows[i]["baseline"], "plan": rows[i]["plan"], "mysql": rows[i]["result"], "mysql_literal_app_": rows[i]["literal"], "mysql_with_prefix_app_": rows[i]["with_prefix"],
                  "subchecks": mism[i]}
     part["details"]["O-C14(mysql)"] = {"migrations": len(rows), "statements": sum(len(a) for r in rows for a in r["result"].get("ok", [])),
                                        "implementation_not_equivariant": sum(1 for s in mism.values() if 1 in s),
                                        "model_differs_on_renamed_input": sum(1 for s in mism.values() if 2 in s),
+                                       "with_prefix_differs_from_literal_renaming": sum(1 for s in mism.values() if 3 in s),
                                        "shard_errors": errors[:2], "unparsed": perr[:3], "first_failing": first}
-    part["details"]["refuted"] = ["C14_mysql_with_prefix_inline_fk_refuted (D10: with_prefix is not the literal renaming for inline foreign keys)"]
+    part["details"]["repaired"] = ["D10 (/repo 6c63462): C14_mysql_with_prefix_equivariant, C14_mysql_with_prefix_inline_fk are positive now; with_prefix is compared with the literal renaming on the implementation (sub-check 3)"]
     part["ok"] = part["ok"] and not mism and not errors and not perr
     return part
